@@ -15,7 +15,7 @@ RULE = ("case = a seeded history of 1-3 injector lifetimes x 4-23 operations ove
 def run(tier, seed):
     r = core.Run("C14", tier, seed, "exploration", RULE)
     exe = core.build_native()
-    n = 16 * 6000 if tier == "thorough" else 2400
+    n = 16 * 20000 if tier == "thorough" else 24000
     cases, sums, notes = core.run_sharded(exe, "c14", seed, tier, core.NCPU if tier == "thorough" else 8, extra={"n": n}, timeout=3000)
     r.add_cases(cases, "native")
     r.notes += notes
